@@ -15,8 +15,9 @@
    (/repo 5e78f4d added: fold only a variable with ONE initial assignment that no earlier kept
    initial assignment read and whose value mentions nothing assigned later in the initial part.)
 
-   Model [constants] = rule RFix (the code now); RCur / ROld are the two superseded rules, each
-   refuted.  Hypothesis [constants_ok] (boolean) forced by the proof; for the current rule it
+   (/repo 99cc64b added: a variable that occurs in a condition is never folded.)
+   Model [constants] = rule RCond (the code now); RFix is superseded (sound), RCur / ROld are
+   superseded and refuted.  Hypothesis [constants_ok] (boolean) forced by the proof; for the current rule it
    holds BY CONSTRUCTION on structurally well-formed flat programs ([constants_ok_by_construction]);
    theorems:
      [constants_coupled]    the two programs are coupled at every iteration
@@ -38,9 +39,12 @@ Definition body_vars (fp : flatprog) : list var := map ga_var (fp_body fp).
    RFix  the rule of proposed_fixes/constants_init_reassign.diff (additionally: the variable has
          a single initial assignment, was not read by an earlier kept initial assignment, and
          its value mentions nothing that is assigned later in the initial part) *)
-(* RFix is the rule of the code NOW (/repo 5e78f4d); RCur the rule between 3e6440d and 5e78f4d *)
-Inductive rule := ROld | RCur | RFix.
+(* rule history of /repo:  ROld (before 3e6440d)  ->  RCur (3e6440d .. 5e78f4d)  ->  RFix (5e78f4d ..
+   99cc64b)  ->  RCond, the code NOW (99cc64b: additionally a variable that occurs in ANY condition
+   of the initial block or the loop body is never folded, so that reduced atoms keep their form) *)
+Inductive rule := ROld | RCur | RFix | RCond.
 Definition strict (r : rule) : bool := match r with ROld => false | _ => true end.
+Definition is_fix (r : rule) : bool := match r with RFix | RCond => true | _ => false end.
 
 (* [Some v]: the assignment is folded at this point with value v.
    [seen]: variables assigned so far or read by a kept assignment so far (read_so_far and the
@@ -53,8 +57,9 @@ Definition fold_value (r : rule) (bv seen rest : list var) (F : smap) (g : gassi
            match r with
            | ROld => Some v
            | RCur => if disjointb (evars v) bv then Some v else None
-           | RFix => if disjointb (evars v) bv && negb (mem_var (ga_var g) seen) && negb (mem_var (ga_var g) rest)
-                        && disjointb (evars v) rest then Some v else None
+           | RFix | RCond =>
+               if disjointb (evars v) bv && negb (mem_var (ga_var g) seen) && negb (mem_var (ga_var g) rest)
+                  && disjointb (evars v) rest then Some v else None
            end
        | _, _ => None
        end.
@@ -84,19 +89,27 @@ Fixpoint dedup (l : list var) : list var :=
 Definition others (bv : list var) (kept : list gassign) : list var :=
   dedup (filter (fun x => negb (mem_var x bv)) (map ga_var kept)).
 
+(* condition_symbols of 99cc64b: variables of all conditions (the loop guard is `true` here); they
+   enter the scan as initially "seen" variables, which rule RFix/RCond never folds *)
+Definition cond_syms (fp : flatprog) : list var :=
+  flat_map (fun g => cvars (ga_cond g)) (fp_init fp ++ fp_body fp).
+Definition seen0 (r : rule) (fp : flatprog) : list var :=
+  match r with RCond => cond_syms fp | _ => [] end.
+
 Definition constants_gen (r : rule) (fp : flatprog) : flatprog :=
   let bv := body_vars fp in
-  let '(F, kept) := scan r bv [] [] (fp_init fp) in
+  let '(F, kept) := scan r bv (seen0 r fp) [] (fp_init fp) in
   {| fp_init := map (subst_ga F) kept;
      fp_body := map (subst_ga F) (fp_body fp) ++ map self_assign (others bv kept) |}.
 
-Definition constants : flatprog -> flatprog := constants_gen RFix.      (* the code now *)
+Definition constants : flatprog -> flatprog := constants_gen RCond.     (* the code now *)
 Definition constants_old : flatprog -> flatprog := constants_gen ROld.  (* before 3e6440d *)
 Definition constants_cur : flatprog -> flatprog := constants_gen RCur.  (* 3e6440d .. 5e78f4d *)
+Definition constants_fix : flatprog -> flatprog := constants_gen RFix.  (* 5e78f4d .. 99cc64b *)
 
 (* the fixed constants with their folded expressions, and the folded variables *)
-Definition fixed_gen (r : rule) (fp : flatprog) : smap := fst (scan r (body_vars fp) [] [] (fp_init fp)).
-Definition fixed : flatprog -> smap := fixed_gen RFix.
+Definition fixed_gen (r : rule) (fp : flatprog) : smap := fst (scan r (body_vars fp) (seen0 r fp) [] (fp_init fp)).
+Definition fixed : flatprog -> smap := fixed_gen RCond.
 Definition folded (fp : flatprog) : list var := sdom (fixed fp).
 
 (* ---- the hypothesis the proof forces ---- *)
@@ -124,9 +137,9 @@ Fixpoint scan_ok (r : rule) (bv seen : list var) (F : smap) (rd : list var) (l :
 Definition closed_map (F : smap) : bool := forallb (fun ke => disjointb (evars (snd ke)) (sdom F)) F.
 
 Definition constants_ok_gen (r : rule) (fp : flatprog) : bool :=
-  scan_ok r (body_vars fp) [] [] [] (fp_init fp)
+  scan_ok r (body_vars fp) (seen0 r fp) [] [] (fp_init fp)
   && forallb (fun g => negb (mem_var (ga_default g) (sdom (fixed_gen r fp)))) (fp_body fp).
-Definition constants_ok : flatprog -> bool := constants_ok_gen RFix.
+Definition constants_ok : flatprog -> bool := constants_ok_gen RCond.
 
 (* structural well-formedness of the flat programs Polar builds (Assignment.__init__: the default
    of an initial assignment is its own variable; MultiAssignTransformer: the default of a body
@@ -210,6 +223,9 @@ Proof.
   - injection H as <-. split; [reflexivity | discriminate].
   - destruct (disjointb (evars (subst_e F e)) bv) eqn:Ed; [|discriminate]. injection H as <-.
     split; [reflexivity | intros _; exact Ed].
+  - destruct (disjointb (evars (subst_e F e)) bv) eqn:Ed; [|discriminate]. cbn [andb] in H.
+    destruct (negb (mem_var (ga_var g) seen) && negb (mem_var (ga_var g) rest) && disjointb (evars (subst_e F e)) rest); [|discriminate].
+    injection H as <-. split; [reflexivity | intros _; exact Ed].
   - destruct (disjointb (evars (subst_e F e)) bv) eqn:Ed; [|discriminate]. cbn [andb] in H.
     destruct (negb (mem_var (ga_var g) seen) && negb (mem_var (ga_var g) rest) && disjointb (evars (subst_e F e)) rest); [|discriminate].
     injection H as <-. split; [reflexivity | intros _; exact Ed].
@@ -330,7 +346,7 @@ Section Constants.
     unfold constants_ok_gen, constants_gen, fixed_gen. intros Hr Hok.
     apply andb_true_iff in Hok. destruct Hok as [Hscan Hdef].
     set (bv := body_vars fp) in *.
-    destruct (scan r bv [] [] (fp_init fp)) as [F kept] eqn:Es. cbn [fst] in *.
+    destruct (scan r bv (seen0 r fp) [] (fp_init fp)) as [F kept] eqn:Es. cbn [fst] in *.
     intros n s0. induction n as [|n IH]; cbn [frun fp_init fp_body].
     - apply (init_sim r bv _ _ _ _ _ _ Es Hscan s0 s0). apply Sub_nil.
     - apply (coupled_bind (Sub F)); [exact IH|].
@@ -375,29 +391,33 @@ Section Constants.
   Qed.
 
   (* ---- the current rule: the hypothesis holds by construction ---- *)
-  Lemma fold_fix_conditions bv seen rest F g v :
-    fold_value RFix bv seen rest F g = Some v ->
+  Lemma fold_fix_conditions r bv seen rest F g v : is_fix r = true ->
+    fold_value r bv seen rest F g = Some v ->
     mem_var (ga_var g) seen = false /\ mem_var (ga_var g) rest = false /\ disjointb (evars v) rest = true.
   Proof.
-    unfold fold_value. destruct (mem_var (ga_var g) bv); [discriminate|].
+    intros Hr. unfold fold_value. destruct (mem_var (ga_var g) bv); [discriminate|].
     destruct (ga_cond g); try discriminate. destruct (ga_rhs g) as [alts|]; [|discriminate].
     destruct alts as [|[p e] [|]]; try discriminate.
-    destruct (disjointb (evars (subst_e F e)) bv); [|discriminate]. cbn [andb].
-    destruct (mem_var (ga_var g) seen); [discriminate|]. destruct (mem_var (ga_var g) rest); [discriminate|].
-    cbn [negb andb]. destruct (disjointb (evars (subst_e F e)) rest) eqn:Ed; [|discriminate].
-    intros H. injection H as <-. auto.
+    assert (G : (if disjointb (evars (subst_e F e)) bv && negb (mem_var (ga_var g) seen) && negb (mem_var (ga_var g) rest)
+                    && disjointb (evars (subst_e F e)) rest then Some (subst_e F e) else None) = Some v ->
+                mem_var (ga_var g) seen = false /\ mem_var (ga_var g) rest = false /\ disjointb (evars v) rest = true).
+    { destruct (disjointb (evars (subst_e F e)) bv); [|discriminate]. cbn [andb].
+      destruct (mem_var (ga_var g) seen); [discriminate|]. destruct (mem_var (ga_var g) rest); [discriminate|].
+      cbn [negb andb]. destruct (disjointb (evars (subst_e F e)) rest) eqn:Ed; [|discriminate].
+      intros H. injection H as <-. auto. }
+    destruct r; try discriminate Hr; exact G.
   Qed.
 
-  Lemma scan_ok_fix bv l : forall seen F rd,
+  Lemma scan_ok_fix r bv l : is_fix r = true -> forall seen F rd,
     forallb wf_init_ga l = true -> incl rd seen ->
     (forall k, In k (sdom F) -> ~ In k (map ga_var l)) ->
     (forall k v, In (k, v) F -> forall x, In x (evars v) -> ~ In x (map ga_var l)) ->
-    scan_ok RFix bv seen F rd l = true.
+    scan_ok r bv seen F rd l = true.
   Proof.
-    induction l as [|g l IH]; intros seen F rd Hwf Hrd H1 H2; [reflexivity|].
+    intros Hfix. induction l as [|g l IH]; intros seen F rd Hwf Hrd H1 H2; [reflexivity|].
     cbn [forallb] in Hwf. apply andb_true_iff in Hwf. destruct Hwf as [Hg Hl].
-    cbn [scan_ok map] in *. destruct (fold_value RFix bv seen (map ga_var l) F g) as [v|] eqn:Ef.
-    - destruct (fold_fix_conditions _ _ _ _ _ _ Ef) as [Hseen [Hrest Hdis]].
+    cbn [scan_ok map] in *. destruct (fold_value r bv seen (map ga_var l) F g) as [v|] eqn:Ef.
+    - destruct (fold_fix_conditions _ _ _ _ _ _ _ Hfix Ef) as [Hseen [Hrest Hdis]].
       destruct (fold_value_shape _ _ _ _ _ _ _ Ef) as [_ [Hc [p [e [Hr _]]]]].
       apply andb_true_iff. split; [apply andb_true_iff; split|].
       + unfold wf_init_ga in Hg. apply andb_true_iff in Hg. destruct Hg as [_ Hg]. rewrite Hc, Hr in Hg.
@@ -443,22 +463,22 @@ Section Constants.
   Proof.
     unfold wf_flat, constants_ok, constants_ok_gen, fixed_gen. intros H.
     apply andb_true_iff in H. destruct H as [Hi Hb]. apply andb_true_iff. split.
-    - apply scan_ok_fix; [exact Hi | intros y [] | intros k [] | intros k v []].
+    - apply scan_ok_fix; [reflexivity | exact Hi | intros y [] | intros k [] | intros k v []].
     - apply forallb_forall. intros g Hg. rewrite forallb_forall in Hb. specialize (Hb g Hg).
-      destruct (scan RFix (body_vars fp) [] [] (fp_init fp)) as [F kept] eqn:Es. cbn [fst].
+      destruct (scan RCond (body_vars fp) (seen0 RCond fp) [] (fp_init fp)) as [F kept] eqn:Es. cbn [fst].
       destruct (mem_var (ga_default g) (sdom F)) eqn:Em; [|reflexivity].
       rewrite (scan_dom_not_body _ _ _ _ _ _ _ Es (fun k (Hk : In k (sdom [])) => match Hk with end) _ (mem_var_true _ _ Em)) in Hb.
       discriminate.
   Qed.
 
-  (* the code as it is now (rule RFix) *)
+  (* the code as it is now (rule RCond) *)
   Theorem constants_coupled fp : constants_ok fp = true ->
     forall n s0, coupled (Sub (fixed fp)) (frun law fp n s0) (frun law (constants fp) n s0).
-  Proof. apply (constants_gen_coupled RFix fp eq_refl). Qed.
+  Proof. apply (constants_gen_coupled RCond fp eq_refl). Qed.
   Theorem constants_preserves fp : constants_ok fp = true ->
     forall n s0 f, ignores (folded fp) f ->
     E (frun law (constants fp) n s0) f = E (frun law fp n s0) f.
-  Proof. apply (constants_gen_preserves RFix fp eq_refl). Qed.
+  Proof. apply (constants_gen_preserves RCond fp eq_refl). Qed.
   Theorem constants_preserves_wf fp : wf_flat fp = true ->
     forall n s0 f, ignores (folded fp) f ->
     E (frun law (constants fp) n s0) f = E (frun law fp n s0) f.
@@ -466,7 +486,25 @@ Section Constants.
   Theorem constants_invariant fp : constants_ok fp = true -> closed_map (fixed fp) = true ->
     forall n s0 s, supp (frun law fp n s0) s ->
     forall k v, slookup (fixed fp) k = Some v -> s k = eval v s.
-  Proof. apply (constants_gen_invariant RFix fp eq_refl). Qed.
+  Proof. apply (constants_gen_invariant RCond fp eq_refl). Qed.
+
+  (* the superseded rule RFix (5e78f4d .. 99cc64b: it also folded constants that occur in
+     conditions) was sound as well: same theorem, same structural hypothesis *)
+  Theorem constants_fix_ok_by_construction fp : wf_flat fp = true -> constants_ok_gen RFix fp = true.
+  Proof.
+    unfold wf_flat, constants_ok_gen, fixed_gen. intros H.
+    apply andb_true_iff in H. destruct H as [Hi Hb]. apply andb_true_iff. split.
+    - apply scan_ok_fix; [reflexivity | exact Hi | intros y [] | intros k [] | intros k v []].
+    - apply forallb_forall. intros g Hg. rewrite forallb_forall in Hb. specialize (Hb g Hg).
+      destruct (scan RFix (body_vars fp) (seen0 RFix fp) [] (fp_init fp)) as [F kept] eqn:Es. cbn [fst].
+      destruct (mem_var (ga_default g) (sdom F)) eqn:Em; [|reflexivity].
+      rewrite (scan_dom_not_body _ _ _ _ _ _ _ Es (fun k (Hk : In k (sdom [])) => match Hk with end) _ (mem_var_true _ _ Em)) in Hb.
+      discriminate.
+  Qed.
+  Theorem constants_fix_preserves fp : wf_flat fp = true ->
+    forall n s0 f, ignores (sdom (fixed_gen RFix fp)) f ->
+    E (frun law (constants_fix fp) n s0) f = E (frun law fp n s0) f.
+  Proof. intros H. apply (constants_gen_preserves RFix fp eq_refl), constants_fix_ok_by_construction, H. Qed.
 
   (* the superseded rule RCur (3e6440d .. 5e78f4d) satisfied the same theorem, but only under
      the hypothesis, which its own choices could violate (constants_cur_without_ok_refuted) *)
@@ -574,7 +612,7 @@ Fixpoint perm_eq (l1 l2 : list gassign) : bool :=
    default is a folded constant — otherwise the output is not a flat program of the model
    (this only happens outside [constants_ok]) *)
 Definition constants_in_model_gen (r : rule) (fp : flatprog) : bool :=
-  let '(F, kept) := scan r (body_vars fp) [] [] (fp_init fp) in
+  let '(F, kept) := scan r (body_vars fp) (seen0 r fp) [] (fp_init fp) in
   forallb (fun g => negb (mem_var (ga_default g) (sdom F))) (kept ++ fp_body fp).
 
 Definition constants_matches_gen (r : rule) (fp out : flatprog) : bool :=
@@ -584,5 +622,5 @@ Definition constants_matches_gen (r : rule) (fp out : flatprog) : bool :=
   && list_eqb ga_eq_poly (firstn nb (fp_body m)) (firstn nb (fp_body out))
   && perm_eq (skipn nb (fp_body m)) (skipn nb (fp_body out)).
 
-Definition constants_in_model : flatprog -> bool := constants_in_model_gen RFix.
-Definition constants_matches : flatprog -> flatprog -> bool := constants_matches_gen RFix.
+Definition constants_in_model : flatprog -> bool := constants_in_model_gen RCond.
+Definition constants_matches : flatprog -> flatprog -> bool := constants_matches_gen RCond.
